@@ -66,6 +66,9 @@ TAGS = {
     "loop.wait": {"C01", "C02", "C05", "C06", "C07", "C12", "C03", "C11", "C18"},
     "loop.wrote": {"C01", "C08", "C12", "C07"},
     "eff.spawn": {"C11", "C12", "C07"},
+    "loop.recv": {"C01", "C02", "C05", "C06", "C07"},
+    "red.begin": {"C07", "C12"},
+    "mw.check": {"C07", "C12"},
     "ntf.snap": {"C03", "C07", "C09", "C12", "C10", "C14"},
     "clear.begin": {"C04", "C09", "C13", "C15", "C06", "C05"},
     "loop.end": {"C04", "C09", "C13", "C15", "C10", "C14"},
